@@ -6,6 +6,7 @@ the mask of the current node (both hold on every state reached from `reset`, see
 `graph_coloring_reachable_invariants`).
 -/
 import JumanjiModel.Env.GraphColoring.Lemmas
+import JumanjiModel.Env.GraphColoring.Bounds
 open Jm GraphColoring
 
 namespace Props.C04
@@ -134,3 +135,29 @@ theorem graph_coloring_reset_obs_faithful (n : Nat) (adj : List (List Bool)) (hn
     (reset n adj).2.obs = observe n (reset n adj).1 :=
   GraphColoring.reset_obs_faithful n adj hn hadj hrows
 end Props.C12
+
+namespace Props.C01
+open PzB
+/-- the observation returned by `reset` on any graph with `n ≥ 1` nodes: every leaf listed in `obsBounds n` is present
+and within its interval: `adj_matrix`, `action_mask` ∈ [0,1], `colors` ∈ [-1, n-1], `current_node_index` ∈ [0, n-1] -/
+theorem graph_coloring_reset_obs_in_bounds (n : Nat) (adj : List (List Bool)) (hn : 0 < n) :
+    ObsInBounds (obsBounds n) (obsLeaves (reset n adj).2.obs) := GraphColoring.reset_obs_in_bounds n adj hn
+
+/-- the same for `step`, for every state in which colours and current node are in range (`InRange`, an invariant: see
+below) and every colour of the action space (`0 ≤ a < n`; `-1` is harmless too), legal or not, terminal step included -/
+theorem graph_coloring_step_obs_in_bounds (n : Nat) (s : State) (a : Int) (h : InRange n s)
+    (ha : -1 ≤ a ∧ a < n) : ObsInBounds (obsBounds n) (obsLeaves (step n s a).2.obs) :=
+  GraphColoring.step_obs_in_bounds n s a h ha
+
+/-- `InRange` holds after `reset` and is preserved by every step with an in-spec colour -/
+theorem graph_coloring_inRange_invariant (n : Nat) :
+    (∀ adj, 0 < n → InRange n (reset n adj).1) ∧
+    (∀ (s : State) (a : Int), InRange n s → (-1 ≤ a ∧ a < n) → InRange n (step n s a).1) :=
+  ⟨fun adj hn => GraphColoring.reset_inRange n adj hn, fun s a h ha => GraphColoring.step_inRange n s a h ha⟩
+
+/-- an out-of-spec colour is written to the board unchecked: the hypothesis on the action is needed -/
+example : ¬ InRange 3 (step 3 ⟨[[false, true, true], [true, false, true], [true, true, false]], [0, 1, -1], 2,
+    [false, false, true]⟩ 7).1 := by decide
+example : InRange 3 ⟨[[false, true, true], [true, false, true], [true, true, false]], [0, 1, -1], 2,
+    [false, false, true]⟩ := by decide
+end Props.C01
